@@ -11,9 +11,9 @@ package c11
 
 import (
 	"context"
-	"errors"
 	"crypto/sha256"
 	"encoding/hex"
+	"errors"
 	"fmt"
 	"io"
 	"log/slog"
@@ -1334,10 +1334,10 @@ type stack struct {
 	// lastDisposedTXT is the number of strings in the TXT record of the most
 	// recently disposed response that had one; -1 if there was none yet.
 	lastDisposedTXT int
-	mu      sync.Mutex
-	obs     fltObservation
-	laddr   net.Addr
-	raddr   net.Addr
+	mu              sync.Mutex
+	obs             fltObservation
+	laddr           net.Addr
+	raddr           net.Addr
 }
 
 func (mo *monitor) newStack(worlds []*fworld, matcher filter.HashMatcher, errs *errRecorder) *stack {
@@ -1495,6 +1495,22 @@ func (st *stack) queryEx(qname string, qt, qclass uint16, failUpstream bool) (re
 		st.cloner.Dispose(written)
 	}
 	return resp, st.up.take(), obs, err
+}
+
+func className(c uint16) string {
+	switch c {
+	case dns.ClassINET:
+		return "IN"
+	case dns.ClassCHAOS:
+		return "CH"
+	case dns.ClassHESIOD:
+		return "HS"
+	case dns.ClassANY:
+		return "ANY"
+	case dns.ClassNONE:
+		return "NONE"
+	}
+	return fmt.Sprintf("CLASS%d", c)
 }
 
 // wireName renders a normalised host the way a client may send it: fully
@@ -1885,6 +1901,23 @@ func (mo *monitor) checkStackTXT(st *stack, rng *rand.Rand, mods map[string]*mod
 	var resp *dns.Msg
 	var up []dns.Question
 	var err error
+	// The question class: a hash-prefix query is answered from the lists (or
+	// refused) whatever its class.  Names that are not hash queries keep class
+	// IN (other classes there mean the debug interface, not this property).
+	qclass := uint16(dns.ClassINET)
+	if kind != txtNotHashQuery {
+		switch x := rng.IntN(100); {
+		case x < 64:
+		case x < 78:
+			qclass = dns.ClassCHAOS
+		case x < 86:
+			qclass = dns.ClassHESIOD
+		case x < 93:
+			qclass = dns.ClassANY
+		default:
+			qclass = dns.ClassNONE
+		}
+	}
 	if kind == txtWellFormed && len(want) == 0 && st.lastDisposedTXT > 0 {
 		// The pooled TXT record that will most likely carry this empty answer
 		// still holds the strings of an earlier response.
@@ -1896,18 +1929,24 @@ func (mo *monitor) checkStackTXT(st *stack, rng *rand.Rand, mods map[string]*mod
 				err = fmt.Errorf("panic: %v", p)
 			}
 		}()
-		resp, up, _, err = st.query(qname, dns.TypeTXT)
+		resp, up, _, err = st.queryEx(qname, dns.TypeTXT, qclass, false)
 	}()
 	r.Bucket("stack_txt_queries", 1)
+	if kind != txtNotHashQuery {
+		r.Bucket("stack_txt_hash_queries_class_"+className(qclass)+"_"+kind.String(), 1)
+		if qclass != dns.ClassINET {
+			r.Bucket("stack_txt_hash_queries_non_IN_class", 1)
+		}
+	}
 	r.Bucket("stack_txt_queries_"+kind.String(), 1)
-	w := map[string]any{"qname": qname, "query_kind": q.Kind, "model_kind": kind.String(), "upstream_calls": fmt.Sprint(up), "err": fmt.Sprint(err)}
+	w := map[string]any{"qname": qname, "qclass": className(qclass), "query_kind": q.Kind, "model_kind": kind.String(), "upstream_calls": fmt.Sprint(up), "err": fmt.Sprint(err)}
 	for k, v := range where {
 		w[k] = v
 	}
 	if resp != nil {
 		w["response"] = resp.String()
 	}
-	class := fmt.Sprintf("stack-txt|%s|%s|want%d", kind, q.Kind, bucketN(len(want)))
+	class := fmt.Sprintf("stack-txt|%s|%s|want%d|class-%s", kind, q.Kind, bucketN(len(want)), className(qclass))
 	if err != nil && strings.HasPrefix(err.Error(), "panic:") {
 		r.Eval(class, true)
 		r.Violation("panic:stack-txt", "the handler stack panicked on a TXT query", w)
@@ -2619,6 +2658,12 @@ func TestCheck(t *testing.T) {
 	r.Require("stack_txt_answers_with_hashes", 300)
 	r.Require("stack_txt_queries_malformed", 150)
 	r.Require("stack_txt_pairs", 2000)
+	r.Require("stack_txt_hash_queries_non_IN_class", 3000)
+	r.Require("stack_txt_hash_queries_class_CH_well-formed", 800)
+	r.Require("stack_txt_hash_queries_class_CH_malformed", 100)
+	r.Require("stack_txt_hash_queries_class_HS_well-formed", 300)
+	r.Require("stack_txt_hash_queries_class_ANY_well-formed", 300)
+	r.Require("stack_txt_hash_queries_class_NONE_well-formed", 300)
 	r.Require("stack_faulted_listed_requests_rewritten", 500)
 	r.Require("stack_faulted_listed_requests:upstream-error", 200)
 	r.Require("stack_faulted_listed_requests:debug-request", 200)
